@@ -40,7 +40,8 @@ def gen_case(rng, lay, tier):
             for k in range(1, ncons + 1):
                 for i in range(1, len(lay) + 1):
                     if rng.random() < 0.5:
-                        ops.append({"op": "read", "k": k, "i": i})
+                        ops.append({"op": "read", "k": k, "i": i, "how": rng.choice(
+                            ["slot", "slot", "index", "name", "hex", "mapno", "node_name", "node_index", "node_pdo"])})
         elif r < 0.75:
             ops.append({"op": "inject", "id": rng.choice(others + [pcob]), "d": [rng.randrange(256) for _ in range(nb)], "ts": ts})
         elif r < 0.85:
